@@ -408,32 +408,35 @@ Record quirks := {
   q_retry_jitter : bool;         (* 8 Retry: randomizationFactor < 0 (minimum=0 is dropped) or huge wait -> rand.Intn panics *)
   q_builder_template : bool;     (* 9 Request/ResponseBuilder: unparsable template accepted -> template.Must panics in Init *)
   q_topic_index : bool;          (* 10 TopicMapper: negative matchIndex/topicIndex accepted -> index out of range *)
-  q_flow_namespace : bool        (* 11 Pipeline: flow node in a namespace nobody fills -> nil request type assertion *)
+  q_flow_namespace : bool;       (* 11 Pipeline: flow node in a namespace nobody fills -> nil request type assertion *)
+  q_stream_compress : bool       (* 12 Proxy: compression + streamed response body (negative serverMaxBodySize) -> nil deref in collectMetrics *)
 }.
 
 Definition ideal : quirks :=
   {| q_wr_zero_total := false; q_rl_zero_period := false; q_sig_no_keystore := false; q_adaptor_codec := false;
      q_policy_ref := false; q_fallback_nil_resp := false; q_null_entry := false; q_retry_jitter := false;
-     q_builder_template := false; q_topic_index := false; q_flow_namespace := false |}.
+     q_builder_template := false; q_topic_index := false; q_flow_namespace := false; q_stream_compress := false |}.
 
 Definition flag (q : quirks) (i : N) : bool :=
   match i with
   | 1 => q_wr_zero_total q | 2 => q_rl_zero_period q | 3 => q_sig_no_keystore q | 4 => q_adaptor_codec q
   | 5 => q_policy_ref q | 6 => q_fallback_nil_resp q | 7 => q_null_entry q | 8 => q_retry_jitter q
-  | 9 => q_builder_template q | 10 => q_topic_index q | 11 => q_flow_namespace q
+  | 9 => q_builder_template q | 10 => q_topic_index q | 11 => q_flow_namespace q | 12 => q_stream_compress q
   | _ => false
   end%N.
 
-Definition nflags : N := 11.
+Definition nflags : N := 12.
 
 Definition only (i : N) : quirks :=
   {| q_wr_zero_total := (i =? 1)%N; q_rl_zero_period := (i =? 2)%N; q_sig_no_keystore := (i =? 3)%N;
      q_adaptor_codec := (i =? 4)%N; q_policy_ref := (i =? 5)%N; q_fallback_nil_resp := (i =? 6)%N;
      q_null_entry := (i =? 7)%N; q_retry_jitter := (i =? 8)%N; q_builder_template := (i =? 9)%N;
-     q_topic_index := (i =? 10)%N; q_flow_namespace := (i =? 11)%N |}.
+     q_topic_index := (i =? 10)%N; q_flow_namespace := (i =? 11)%N; q_stream_compress := (i =? 12)%N |}.
 
 (** ** null entries (quirk 7): a [null] in a list / map of pointers survives
     validation because TrimNull removes it before the schema sees the document *)
+Definition is_tptr (t : gty) : bool := match t with TPtr _ => true | _ => false end.
+
 Definition null_fields (rec : gty -> jvalue -> bool) (kv : list (string * jvalue)) : list (string * fmeta * gty) -> bool :=
   fix go fs :=
     match fs with
@@ -444,8 +447,8 @@ Definition null_fields (rec : gty -> jvalue -> bool) (kv : list (string * jvalue
 Fixpoint has_null_entry (t : gty) (g : jvalue) {struct t} : bool :=
   match t with
   | TPtr t' => if is_null g then false else has_null_entry t' g
-  | TSlice t' => match g with JArr l => existsb (fun x => if is_null x then is_ptr t' else has_null_entry t' x) l | _ => false end
-  | TMap t' => match g with JObj kv => existsb (fun p => if is_null (snd p) then is_ptr t' else has_null_entry t' (snd p)) kv | _ => false end
+  | TSlice t' => match g with JArr l => existsb (fun x => if is_null x then is_tptr t' else has_null_entry t' x) l | _ => false end
+  | TMap t' => match g with JObj kv => existsb (fun p => if is_null (snd p) then is_tptr t' else has_null_entry t' (snd p)) kv | _ => false end
   | TStruct fs => match g with JObj kv => null_fields has_null_entry kv fs | _ => false end
   | _ => false
   end.
@@ -755,6 +758,15 @@ Definition proxy_regex_bad (o : orc) (g : jvalue) : bool :=
 Definition cb_window_bad (g : jvalue) : bool :=
   match jfield "slidingWindowSize" g with Some (JNum n) => n <? 1000 | _ => true end.
 
+(** Proxy: with [compression] the gzip reader replaces the CallbackReader that collectMetrics
+    expects when the response body is streamed (effective serverMaxBodySize < 0) *)
+Definition pool_streams (g p : jvalue) : bool :=
+  let m := nget "serverMaxBodySize" p in
+  (if m =? 0 then nget "serverMaxBodySize" g else m) <? 0.
+
+Definition proxy_stream_compress (g : jvalue) : bool :=
+  jpresent (jfield "compression" g) && existsb (pool_streams g) (aget "pools" g).
+
 Definition may_init (o : orc) (q : quirks) (ty : gty) (kind : string) (g : jvalue) : bool :=
   has_null_entry ty g ||
   (String.eqb kind "RateLimiter" && rl_regex_bad o g) ||
@@ -766,6 +778,7 @@ Definition may_init (o : orc) (q : quirks) (ty : gty) (kind : string) (g : jvalu
 Definition may_handle (o : orc) (q : quirks) (ty : gty) (kind : string) (g : jvalue) : bool :=
   has_null_entry ty g ||
   (q_wr_zero_total q && String.eqb kind "Proxy" && existsb pool_wr_bad (proxy_pools g)) ||
+  (q_stream_compress q && String.eqb kind "Proxy" && proxy_stream_compress g) ||
   (String.eqb kind "RateLimiter" && existsb (rl_url_bad o g) (aget "urls" g)) ||
   (String.eqb kind "Validator" && sig_no_keys g) ||
   (q_fallback_nil_resp q && String.eqb kind "Fallback") ||
